@@ -379,7 +379,9 @@ class Fn:
         recq = (t or {}).get('recq') or (self.tu.type((t or {}).get('base')) or {}).get('recq') if t else None
         if recq:
             cands = [g for g in self.tu.fns if g.clsq == recq and g.name == 'operator()']
-            if len(cands) == 1:
+            if cands and len({g.skey for g in cands}) == 1:
+                # several candidates print the same class name when the class involves a lambda type (lambdas of different enclosing
+                # instantiations share their printed name): they are instantiations of one template body
                 return cands[0]
         return None
 
